@@ -138,11 +138,13 @@ mod internal_metrics;
 use std::{
     fmt,
     io::{self, Write},
-    mem,
     path::{Path, PathBuf},
     sync::Arc,
     thread,
 };
+
+#[cfg(test)]
+use std::mem;
 
 use emit::{
     clock::{Clock, ErasedClock},
@@ -689,10 +691,16 @@ impl EventBatch {
     }
 
     fn advance(&mut self) {
-        let advanced = mem::take(&mut self.bufs[self.index]);
+        // NOTE: The buffer is kept so the whole batch can be retried
+        let advanced = &self.bufs[self.index];
 
-        self.index += 1;
         self.remaining_bytes -= advanced.len();
+        self.index += 1;
+    }
+
+    fn rewind(&mut self) {
+        self.index = 0;
+        self.remaining_bytes = self.bufs.iter().map(|buf| buf.len()).sum();
     }
 }
 
@@ -894,6 +902,10 @@ impl Worker {
                         err,
                     )
                 }));
+
+                // Events written before this one haven't been synced and the file they're
+                // in is now poisoned, so retry the whole batch rather than just the remainder
+                batch.rewind();
 
                 return Err(emit_batcher::BatchError::retry(err, batch));
             }
